@@ -125,4 +125,190 @@ theorem analysis_errors {L : Type} (pg : Nat → Except E (List L)) (sel : List 
   unfold extractAnalysis
   rw [C10Life.resolve_invalid sel n hne hr]
 
+/-! ## cross-page summaries: `ReadingOrder().ColumnCount / PageWidth / PageHeight`, `Analyze().Stats` -/
+
+theorem foldl_roStep_cols (ps : List ROPage) : ∀ acc : ROPage,
+    (ps.foldl roStep acc).cols = ps.foldl (fun m p => max m p.cols) acc.cols := by
+  induction ps with
+  | nil => intro acc; rfl
+  | cons p ps ih =>
+    intro acc
+    simp only [List.foldl_cons]
+    rw [ih]
+    congr 1
+    simp only [roStep]
+    split <;> omega
+
+theorem foldl_max_ge (l : List Nat) : ∀ m : Nat, m ≤ l.foldl max m ∧ ∀ x ∈ l, x ≤ l.foldl max m := by
+  induction l with
+  | nil => intro m; exact ⟨Nat.le_refl _, by intro x hx; cases hx⟩
+  | cons a l ih =>
+    intro m
+    obtain ⟨h1, h2⟩ := ih (max m a)
+    simp only [List.foldl_cons]
+    refine ⟨by omega, ?_⟩
+    intro x hx
+    simp only [List.mem_cons] at hx
+    rcases hx with rfl | hx
+    · omega
+    · exact h2 x hx
+
+theorem foldl_max_attained (l : List Nat) : ∀ m : Nat, l.foldl max m = m ∨ l.foldl max m ∈ l := by
+  induction l with
+  | nil => intro m; left; rfl
+  | cons a l ih =>
+    intro m
+    simp only [List.foldl_cons]
+    rcases ih (max m a) with h | h
+    · rw [h]
+      by_cases hm : a ≤ m
+      · left; omega
+      · right; have : max m a = a := by omega
+        rw [this]; exact List.mem_cons_self
+    · right; exact List.mem_cons_of_mem _ h
+
+theorem foldl_max_map (ps : List ROPage) (m : Nat) :
+    ps.foldl (fun m p => max m p.cols) m = (ps.map (·.cols)).foldl max m := by
+  induction ps generalizing m with
+  | nil => rfl
+  | cons p ps ih => simp only [List.foldl_cons, List.map_cons]; exact ih _
+
+/-- once a non-zero width is recorded, the dimensions stay -/
+theorem foldl_roStep_dims_fixed (ps : List ROPage) : ∀ acc : ROPage, acc.w ≠ 0 →
+    (ps.foldl roStep acc).w = acc.w ∧ (ps.foldl roStep acc).h = acc.h := by
+  induction ps with
+  | nil => intro acc _; exact ⟨rfl, rfl⟩
+  | cons p ps ih =>
+    intro acc h
+    simp only [List.foldl_cons]
+    have hw : (roStep acc p).w = acc.w := by simp [roStep, h]
+    have hh : (roStep acc p).h = acc.h := by simp [roStep, h]
+    obtain ⟨a, b⟩ := ih (roStep acc p) (by rw [hw]; exact h)
+    exact ⟨by rw [a, hw], by rw [b, hh]⟩
+
+/-- **reading_order_summary**: for a valid selection of readable pages, `ReadingOrder()` reports
+as `ColumnCount` the LARGEST column count among the selected pages (and of no other page), and
+as `PageWidth` / `PageHeight` the size of the LOWEST selected page (every PDF page has a
+non-zero width). -/
+theorem reading_order_summary (pg : Nat → Except E ROPage) (f : Nat → ROPage)
+    (sel : List Int) (n : Nat) (hne : sel ≠ []) (hr : InRange sel n)
+    (hpg : ∀ k, k < n → pg k = .ok (f k)) (hw : ∀ k, k < n → (f k).w ≠ 0) :
+    ∃ r k0 rest, extractReadingOrder pg sel n = .ok r ∧ specPages sel n = k0 :: rest ∧
+      (∀ k ∈ specPages sel n, (f k).cols ≤ r.cols) ∧
+      (r.cols = 0 ∨ ∃ k ∈ specPages sel n, (f k).cols = r.cols) ∧
+      r.w = (f k0).w ∧ r.h = (f k0).h := by
+  have hcol := collect_ok pg f (specPages sel n) (fun k hk => hpg k ((mem_specPages sel n k).mp hk).1)
+  have hnil := C10Life.specPages_ne_nil sel n hne hr
+  cases hsp : specPages sel n with
+  | nil => exact absurd hsp hnil
+  | cons k0 rest =>
+    have hk0 : k0 < n := ((mem_specPages sel n k0).mp (by rw [hsp]; exact List.mem_cons_self)).1
+    refine ⟨((k0 :: rest).map f).foldl roStep ⟨0, 0, 0⟩, k0, rest, ?_, rfl, ?_, ?_, ?_⟩
+    · rw [hsp] at hcol
+      unfold extractReadingOrder readingOrderOf
+      rw [C10Life.resolve_valid sel n hne hr, hsp]
+      simp only [List.isEmpty_cons, Bool.false_eq_true, if_false, hcol]
+    · intro k hk
+      rw [foldl_roStep_cols, foldl_max_map]
+      exact (foldl_max_ge _ 0).2 _ (List.mem_map.mpr ⟨f k, List.mem_map.mpr ⟨k, hk, rfl⟩, rfl⟩)
+    · rw [foldl_roStep_cols, foldl_max_map]
+      rcases foldl_max_attained (((k0 :: rest).map f).map (·.cols)) 0 with h | h
+      · left; exact h
+      · right
+        obtain ⟨p, hp, hpe⟩ := List.mem_map.mp h
+        obtain ⟨k, hk, hkp⟩ := List.mem_map.mp hp
+        exact ⟨k, hk, by rw [hkp]; exact hpe⟩
+    · simp only [List.map_cons, List.foldl_cons]
+      have h1 : (roStep ⟨0, 0, 0⟩ (f k0)).w = (f k0).w := by simp [roStep]
+      have h2 : (roStep ⟨0, 0, 0⟩ (f k0)).h = (f k0).h := by simp [roStep]
+      obtain ⟨a, b⟩ := foldl_roStep_dims_fixed (rest.map f) (roStep ⟨0, 0, 0⟩ (f k0)) (by rw [h1]; exact hw k0 hk0)
+      exact ⟨by rw [a, h1], by rw [b, h2]⟩
+
+example : extractReadingOrder (fun k => .ok ⟨k % 3, 600 + k, 800⟩) [4, 2, 4] 5 = .ok ⟨1, 601, 800⟩ := by decide
+
+theorem foldl_anStep_proj (π : AStats → Nat) (hπ : ∀ a b, π (a.add b) = π a + π b) (ps : List APage) :
+    ∀ acc : ASummary, π (ps.foldl anStep acc).stats = π acc.stats + (ps.map fun p => π p.stats).sum := by
+  induction ps with
+  | nil => intro acc; simp
+  | cons p ps ih =>
+    intro acc
+    simp only [List.foldl_cons, List.map_cons, List.sum_cons]
+    rw [ih]
+    simp only [anStep, hπ]
+    omega
+
+theorem foldl_anStep_col (ps : List APage) : ∀ acc : ASummary, (ps.foldl anStep acc).colCount = acc.colCount := by
+  induction ps with
+  | nil => intro acc; rfl
+  | cons p ps ih => intro acc; simp only [List.foldl_cons]; rw [ih]; rfl
+
+theorem foldl_anStep_dims_fixed (ps : List APage) : ∀ acc : ASummary, acc.w ≠ 0 →
+    (ps.foldl anStep acc).w = acc.w ∧ (ps.foldl anStep acc).h = acc.h := by
+  induction ps with
+  | nil => intro acc _; exact ⟨rfl, rfl⟩
+  | cons p ps ih =>
+    intro acc h
+    simp only [List.foldl_cons]
+    have hw : (anStep acc p).w = acc.w := by simp [anStep, h]
+    have hh : (anStep acc p).h = acc.h := by simp [anStep, h]
+    obtain ⟨a, b⟩ := ih (anStep acc p) (by rw [hw]; exact h)
+    exact ⟨by rw [a, hw], by rw [b, hh]⟩
+
+/-- **analysis_stats_sum**: for a valid selection of readable pages every counter of
+`Analyze().Stats` is the SUM of that counter over the selected pages — each page once, however
+often the selection names it — `Stats.ColumnCount` is 0 (the code never assigns it), and the
+page size is that of the lowest selected page. -/
+theorem analysis_stats_sum (pg : Nat → Except E APage) (f : Nat → APage)
+    (sel : List Int) (n : Nat) (hne : sel ≠ []) (hr : InRange sel n)
+    (hpg : ∀ k, k < n → pg k = .ok (f k)) (hw : ∀ k, k < n → (f k).w ≠ 0) :
+    ∃ r k0 rest, extractAnalysisSummary pg sel n = .ok r ∧ specPages sel n = k0 :: rest ∧
+      r.stats.frag = ((specPages sel n).map fun k => (f k).stats.frag).sum ∧
+      r.stats.line = ((specPages sel n).map fun k => (f k).stats.line).sum ∧
+      r.stats.block = ((specPages sel n).map fun k => (f k).stats.block).sum ∧
+      r.stats.para = ((specPages sel n).map fun k => (f k).stats.para).sum ∧
+      r.stats.head = ((specPages sel n).map fun k => (f k).stats.head).sum ∧
+      r.stats.list = ((specPages sel n).map fun k => (f k).stats.list).sum ∧
+      r.stats.elem = ((specPages sel n).map fun k => (f k).stats.elem).sum ∧
+      r.colCount = 0 ∧ r.w = (f k0).w ∧ r.h = (f k0).h := by
+  have hcol := collect_ok pg f (specPages sel n) (fun k hk => hpg k ((mem_specPages sel n k).mp hk).1)
+  have hnil := C10Life.specPages_ne_nil sel n hne hr
+  cases hsp : specPages sel n with
+  | nil => exact absurd hsp hnil
+  | cons k0 rest =>
+    have hk0 : k0 < n := ((mem_specPages sel n k0).mp (by rw [hsp]; exact List.mem_cons_self)).1
+    have proj : ∀ (π : AStats → Nat), (∀ a b, π (a.add b) = π a + π b) → π ⟨0, 0, 0, 0, 0, 0, 0⟩ = 0 →
+        π (((k0 :: rest).map f).foldl anStep ⟨⟨0, 0, 0, 0, 0, 0, 0⟩, 0, 0, 0⟩).stats =
+          ((k0 :: rest).map fun k => π (f k).stats).sum := by
+      intro π hπ h0
+      rw [foldl_anStep_proj π hπ, h0, List.map_map, Nat.zero_add]
+      rfl
+    refine ⟨((k0 :: rest).map f).foldl anStep ⟨⟨0, 0, 0, 0, 0, 0, 0⟩, 0, 0, 0⟩, k0, rest, ?_, rfl,
+      proj (·.frag) (fun _ _ => rfl) rfl, proj (·.line) (fun _ _ => rfl) rfl,
+      proj (·.block) (fun _ _ => rfl) rfl, proj (·.para) (fun _ _ => rfl) rfl,
+      proj (·.head) (fun _ _ => rfl) rfl, proj (·.list) (fun _ _ => rfl) rfl,
+      proj (·.elem) (fun _ _ => rfl) rfl, foldl_anStep_col _ _, ?_⟩
+    · rw [hsp] at hcol
+      unfold extractAnalysisSummary analysisSummaryOf
+      rw [C10Life.resolve_valid sel n hne hr, hsp]
+      simp only [List.isEmpty_cons, Bool.false_eq_true, if_false, hcol]
+    · simp only [List.map_cons, List.foldl_cons]
+      have h1 : (anStep ⟨⟨0, 0, 0, 0, 0, 0, 0⟩, 0, 0, 0⟩ (f k0)).w = (f k0).w := by simp [anStep]
+      have h2 : (anStep ⟨⟨0, 0, 0, 0, 0, 0, 0⟩, 0, 0, 0⟩ (f k0)).h = (f k0).h := by simp [anStep]
+      obtain ⟨a, b⟩ := foldl_anStep_dims_fixed (rest.map f) _ (by rw [h1]; exact hw k0 hk0)
+      exact ⟨by rw [a, h1], by rw [b, h2]⟩
+
+example : extractAnalysisSummary (fun k => .ok ⟨⟨k, 1, 1, 1, 0, 0, 2⟩, 600 + k, 800⟩) [3, 1, 3] 3
+    = .ok ⟨⟨2, 2, 2, 2, 0, 0, 4⟩, 0, 600, 800⟩ := by decide
+
+/-- the summaries fail as the operations do: nothing to process, or the range error -/
+theorem summary_errors (pr : Nat → Except E ROPage) (pa : Nat → Except E APage) (sel : List Int) (n : Nat) :
+    extractReadingOrder pr [] 0 = .error .nopages ∧ extractAnalysisSummary pa [] 0 = .error .nopages ∧
+    (sel ≠ [] → ¬ InRange sel n →
+      extractReadingOrder pr sel n = .error .range ∧ extractAnalysisSummary pa sel n = .error .range) := by
+  refine ⟨rfl, rfl, ?_⟩
+  intro hne hr
+  unfold extractReadingOrder extractAnalysisSummary
+  rw [C10Life.resolve_invalid sel n hne hr]
+  exact ⟨rfl, rfl⟩
+
 end Tabula.C10Meta
